@@ -9,11 +9,15 @@ use proptest::prelude::*;
 use serde::{Deserialize, Serialize};
 
 #[derive(Clone, Debug, Serialize, Deserialize)]
-pub struct KeyDiff { pub plain: Plain, pub s: u64, pub r: u64, pub e: u64, pub p: u64, pub prs: RSched }
+pub struct KeyDiff { pub plain: Plain, pub s: u64, pub r: u64, pub e: u64, pub p: u64, pub prs: RSched,
+    /// the recipient key is handed over in a non-canonical encoding (bit 255 set): Noise hashes the bytes as given
+    #[serde(default)] pub noncanon_recipient: bool }
 #[derive(Clone, Debug, Serialize, Deserialize)]
 pub struct PassDiff { pub plain: Plain, pub w: Vec<u8>, pub salt: u64, pub prs: RSched }
 #[derive(Clone, Debug, Serialize, Deserialize)]
-pub struct SpecFile { pub plain: Plain, pub s: u64, pub r: u64, pub e: u64, pub p: u64, pub head: Vec<usize>, pub tail: usize, pub pass: Option<Vec<u8>>, pub crs: RSched }
+pub struct SpecFile { pub plain: Plain, pub s: u64, pub r: u64, pub e: u64, pub p: u64, pub head: Vec<usize>, pub tail: usize, pub pass: Option<Vec<u8>>, pub crs: RSched,
+    /// the ephemeral (1) / static sender (2) public key travels in a non-canonical encoding (bit 255 set)
+    #[serde(default)] pub noncanon: u8 }
 #[derive(Clone, Debug, Serialize, Deserialize)]
 pub struct NonceCase { pub key: u64, pub counter: u64, pub ad_len: usize, pub msg_len: usize }
 #[derive(Clone, Debug, Serialize, Deserialize)]
@@ -23,10 +27,14 @@ fn nontrivial_lens(lens: &[usize]) -> bool { lens.len() >= 2 || lens.iter().enum
 
 pub fn check_key(c: &KeyDiff) -> CheckResult {
     let p = c.plain.bytes(); let s = kx::ident(c.s, "S"); let r = kx::ident(c.r, "R"); let e = gen::key32(c.e, "E"); let pl = gen::key32(c.p, "P");
-    let (res, sh) = kx::key_encrypt(&p, &c.prs, &WSched::all(), None, &s.sk, &s.pk, &r.pk, Some(&e), Some(&pl));
+    let mut rpk = r.pk; if c.noncanon_recipient { rpk[31] |= 0x80; }
+    let (res, sh) = kx::key_encrypt(&p, &c.prs, &WSched::all(), None, &s.sk, &s.pk, &rpk, Some(&e), Some(&pl));
     ensure!(res.is_ok(), "key_encrypt failed: {:?}", res);
     let lens = read_sizes(&sh); let ct = sh.sink.take();
-    let spec = kspec::key_file(&s.sk, &r.pk, &e, &pl, &p, &lens);
+    let spec = kspec::key_file(&s.sk, &rpk, &e, &pl, &p, &lens);
+    if c.noncanon_recipient { // the recipient, using the same spelling of its own key, decrypts it
+        let (dres, dsh) = kx::key_decrypt(&spec, &RSched::full(), &WSched::all(), None, &r.sk, &rpk);
+        ensure!(matches!(dres, DecRes::Ok(Some(x)) if x == s.pk) && *dsh.sink.borrow() == p, "a conforming file addressed to a non-canonically encoded recipient key was not decrypted: {:?}", dres); }
     if ct != spec {
         let at = ct.iter().zip(spec.iter()).position(|(a, b)| a != b).unwrap_or(ct.len().min(spec.len()));
         return Err(format!("key_encrypt output differs from the documented format at byte {} (lengths {} vs {}; region {}; chunk lengths {:?})", at, ct.len(), spec.len(), if at < 4 { "magic" } else if at < 36 { "ephemeral key" } else if at < 84 { "encrypted static key" } else if at < 132 { "encrypted payload key" } else { "chunk area" }, lens));
@@ -53,9 +61,10 @@ pub fn check_spec_file(c: &SpecFile) -> CheckResult {
     match &c.pass {
         None => {
             let s = kx::ident(c.s, "S"); let r = kx::ident(c.r, "R"); let e = gen::key32(c.e, "E"); let pl = gen::key32(c.p, "P");
-            let f = kspec::key_file(&s.sk, &r.pk, &e, &pl, &p, &lens);
+            let (mut epub, mut spub) = (kspec::x25519_base(&e), s.pk); if c.noncanon == 1 { epub[31] |= 0x80; } if c.noncanon == 2 { spub[31] |= 0x80; }
+            let f = if c.noncanon == 0 { kspec::key_file(&s.sk, &r.pk, &e, &pl, &p, &lens) } else { let (msg, h) = kspec::key_header(&s.sk, &spub, &r.pk, &e, &epub, &pl); let mut f = kspec::MAGIC_KEY.to_vec(); f.extend_from_slice(&msg); kspec::write_chunks(&mut f, &kspec::file_key(&pl, &h), &[], &p, &lens); f };
             let (res, sh) = kx::key_decrypt(&f, &c.crs, &WSched::all(), None, &r.sk, &r.pk);
-            match res { DecRes::Ok(Some(snd)) => { ensure!(*sh.sink.borrow() == p, "conforming key-mode file decrypted to different bytes (chunk lengths {:?})", lens); ensure!(snd == s.pk, "conforming key-mode file: wrong sender reported"); }
+            match res { DecRes::Ok(Some(snd)) => { ensure!(*sh.sink.borrow() == p, "conforming key-mode file decrypted to different bytes (chunk lengths {:?})", lens); ensure!(snd == spub, "conforming key-mode file: the sender key reported is not the key bytes that were sent"); }
                 other => return Err(format!("a file conforming to the documented key-mode format was rejected: {:?} (|P|={}, chunk lengths {:?})", other, p.len(), lens)) }
         }
         Some(w) => {
@@ -143,10 +152,10 @@ pub fn run(ctx: &Ctx) {
     set_rule("C06", "differential against the independent executable specification (kspec): (sender, recipient, ephemeral key, payload key, plaintext, read schedule) and (password, salt, plaintext, read schedule) -> byte equality of the real encryptor's output with the specification's file for the chunking induced by the reads; reverse direction: specification-written conforming files with arbitrary legal chunkings (any chunk 1..65536, incl. full-after-short) must decrypt to plaintext and sender; golden corpus (25 files written by the pinned tree + the repository's 1.x test files); Noise-AEAD nonce layout via the hook for counters across the 64-bit range. Non-trivial = >= 2 chunks or a chunk that is neither full nor last (nonce cases: counter > 255); distinct by hash of the case");
     ctx.assume("kspec is the reference for 'documented format'; it is validated against RFC 8439/7748/5869/4231/7914 vectors, the Noise vector pinned by the repository, and OpenSSL (tools/oracle_audit.py) - a kspec bug would show as a disagreement on the unchanged tree");
     let max = if ctx.quick() { 300_000 } else { 2 << 20 };
-    ctx.pbt("key_encrypt_vs_spec", ctx.n(20_000, 300_000), || (gen::plain_strategy(max), any::<u64>(), any::<u64>(), any::<u64>(), any::<u64>()).prop_flat_map(|(plain, s, r, e, p)| { let l = plain.len; (Just(plain), Just(s), Just(r), Just(e), Just(p), gen::rsched_for(l)) }).prop_map(|(plain, s, r, e, p, prs)| KeyDiff { plain, s, r, e, p, prs }), check_key);
+    ctx.pbt("key_encrypt_vs_spec", ctx.n(20_000, 300_000), || (gen::plain_strategy(max), any::<u64>(), any::<u64>(), any::<u64>(), any::<u64>()).prop_flat_map(|(plain, s, r, e, p)| { let l = plain.len; (Just(plain), Just(s), Just(r), Just(e), Just(p), gen::rsched_for(l)) }).prop_map(|(plain, s, r, e, p, prs)| KeyDiff { plain, s, r, e, p, prs, noncanon_recipient: e % 5 == 0 }), check_key);
     ctx.pbt("pass_encrypt_vs_spec", ctx.n(200, 4_000), || (prop_oneof![5 => gen::small_plain(400), 1 => gen::plain_strategy(200_000)], gen::password_strategy(), any::<u64>()).prop_flat_map(|(plain, w, salt)| { let l = plain.len; (Just(plain), Just(w), Just(salt), gen::rsched_for(l)) }).prop_map(|(plain, w, salt, prs)| PassDiff { plain, w, salt, prs }), check_pass);
     let sf = |pass: bool, max: usize| (gen::plain_strategy(max), any::<u64>(), any::<u64>(), any::<u64>(), any::<u64>(), proptest::collection::vec(prop_oneof![1usize..300, Just(CS), Just(CS - 1), 1usize..=CS], 0..6), prop_oneof![Just(CS), 1usize..=CS, 1usize..50], gen::password_strategy(), gen::rsched_coarse())
-        .prop_map(move |(plain, s, r, e, p, head, tail, w, crs)| { let tail = if plain.len / tail.max(1) > 400 { CS } else { tail }; SpecFile { plain, s, r, e, p, head, tail, pass: if pass { Some(w) } else { None }, crs } });
+        .prop_map(move |(plain, s, r, e, p, head, tail, w, crs)| { let tail = if plain.len / tail.max(1) > 400 { CS } else { tail }; SpecFile { plain, s, r, e, p, head, tail, pass: if pass { Some(w) } else { None }, crs, noncanon: if pass { 0 } else { match e % 7 { 0 => 1, 1 => 2, _ => 0 } } } });
     ctx.pbt("spec_files_key", ctx.n(20_000, 300_000), || sf(false, max), check_spec_file);
     ctx.pbt("spec_files_pass", ctx.n(150, 3_000), || sf(true, 70_000), check_spec_file);
     let specials: Vec<u64> = vec![0, 1, 2, 255, 256, 65535, 65536, (1 << 32) - 1, 1 << 32, (1 << 32) + 1, 1 << 40, 1 << 63, (1 << 63) + 1, u64::MAX - 1, u64::MAX - 2, 0x0102030405060708, 0xfffefdfcfbfaf9f8];
